@@ -456,7 +456,16 @@ func Defer[T any](factory func() Observable[T]) Observable[T] {
 func Future[T any](factory func() (T, error)) Observable[T] {
 	return NewUnsafeObservableWithContext(func(ctx context.Context, destination Observer[T]) Teardown {
 		go func() {
-			v, err := factory()
+			var v T
+
+			var err error
+
+			// The factory runs on a goroutine of its own: a panic that is not
+			// recovered here would crash the whole process.
+			if panicked := tryUserCallback(func() { v, err = factory() }); panicked != nil {
+				err = panicked
+			}
+
 			if err != nil {
 				destination.ErrorWithContext(ctx, err)
 				return
